@@ -30,8 +30,8 @@ RULE = (
     "observed firing pattern)"
 )
 BOUNDS = {
-    "quick": "scripts of length <=2 over a 5-point grid, all schedule choices, both engines",
-    "thorough": "scripts of length <=3 over a 5-point grid, all schedule choices, both engines",
+    "quick": "scripts of length <=2 over a 5-point grid, all schedule choices, both engines; sync threads: leave / re-enter against the after-timer threads, every line-level interleaving with <=1 preemption",
+    "thorough": "scripts of length <=3 over a 5-point grid, all schedule choices, both engines; sync threads: <=1-2 preemptions",
 }
 ASSUMPTIONS = [
     "only the order of instants matters to the library; the grid is representative, not an enumeration of the reals",
@@ -208,9 +208,14 @@ def _delay(variant: str, name: str, a: Dict[str, Any]) -> float:
     return D1
 
 
+PREEMPT = {"leave": (1, 2), "leave-back": (1, 1), "self-reenter": (1, 1), "leave-back-leave": (1, 1)}
+
+
 def units(tier: str) -> List[Any]:
     maxlen = 2 if tier == "quick" else 3
     us = []
+    for variant, (bq, bt) in PREEMPT.items():
+        us.append(("preempt", variant, bq if tier == "quick" else bt))
     for variant in VARIANTS:
         for engine in ENGINES:
             sc = scripts(maxlen, engine, variant)
@@ -269,6 +274,11 @@ def run_one(variant, engine, script, prefix=None):
 
 
 def run_unit(unit):
+    if unit[0] == "preempt":
+        from . import c08_preempt as P
+        from ..preempt import unit_result
+
+        return unit_result("C08", P, unit[1], unit[2], lambda v: f"caller ops {P.VARIANTS[v]} against the after-timer threads of state 'a'")
     variant, engine, batch = unit
     res = dict(states=0, transitions=0, executions=0, evaluations=0, distinct=[], violations=[], samples=[], caps=[])
     for script in batch:
@@ -293,6 +303,11 @@ def run_unit(unit):
 
 
 def replay(payload):
+    if payload.get("engine") == "preempt":
+        from . import c08_preempt as P
+        from ..preempt import replay_unit
+
+        return replay_unit("C08", P, payload)
     script = [tuple(x) for x in payload["script"]]
     out = run_one(payload["variant"], payload["engine"], script, prefix=payload["schedule"])
     vs = []
